@@ -68,6 +68,8 @@ class Ctx:
     want_probes = True
     calls = None       # optional: distinct propagator calls met (for the call corpus)
     cut = False
+    nested_probes = False
+    tt = 0             # the stack level the recorder believes is current (resumes are recognised by the state)
 
 
 C = Ctx
@@ -100,6 +102,16 @@ def _emit(e):
 
 def _d():
     return 1 if C.shaving else 0
+
+
+def _sync():
+    """A level popped without going through the wrapped backtrack() is still a resume: recognise it by the state."""
+    t = _top()
+    while C.tt > t:
+        C.tt -= 1
+        _emit({"k": "R", "d": _d(), "ok": True, "top2": C.tt, "box": _box(C.tt), "en": _en(C.tt), "same": True,
+               "synth": True})
+    C.tt = t
 
 
 # ----------------------------------------------------------------------------- wrappers
@@ -136,6 +148,7 @@ def _probe(a, p):
         b[k] = a[k].copy()
     b[14][:] = False
     b[14][p] = True
+    b[9] = np.zeros_like(a[9])   # no wake-ups: exactly ONE execution of p through the engine's own view / write-back
     top = int(b[13][0])
     before = b[10][top].tolist()
     C.probing = True
@@ -167,6 +180,7 @@ def wrap_ca(alg, f):
     def g(*a):
         if C.probing or C.solver is None:
             return f(*a)
+        _sync()
         top = _top()
         e = {"k": "P", "alg": alg, "top": top, "in": _box(), "en": _en(), "trunc": False, "bc": []}
         outer_shaving = alg == 1 and C.shaving == 0
@@ -204,13 +218,16 @@ def wrap_ca(alg, f):
                 rec["f"][-1][1] = _box(top) != rec["pre"] if _top() == top else True
         if outer_shaving:
             C.shaving -= 1
+        if alg == 1:
+            _sync()
         top2 = _top()
+        C.tt = top2
         s = C.solver
         e.update({"st": r, "top2": top2, "out": _box(), "en2": _en(),
                   "stack": s.shr_domains_stack[:top2].tolist(),
                   "ens": [[bool(x) for x in row] for row in s.not_entailed_propagators_stack[:top2]],
                   "f": [[x[0], bool(x[1])] for x in rec["f"]], "probes": [], "stats": _stats()})
-        if r != 0 and e["d"] == 0 and C.want_probes:
+        if r != 0 and (e["d"] == 0 or C.nested_probes) and C.want_probes:
             e["probes"] = [_probe(a, p) for p in range(len(a[14])) if a[11][top2][p]]
         _emit(e)
         return r
@@ -221,6 +238,8 @@ def wrap_ca(alg, f):
 
 def wrap_vh(i, f):
     def g(params, decision_domains, sds, top):
+        if not C.probing and C.solver is not None:
+            _sync()
         r = f(params, decision_domains, sds, top)
         if not C.probing and C.solver is not None:
             _emit({"k": "V", "d": _d(), "dom": int(r)})
@@ -234,9 +253,11 @@ def wrap_dh(f):
     def g(params, sds, nes, upd, top, dom_idx):
         if C.probing or C.solver is None:
             return f(params, sds, nes, upd, top, dom_idx)
+        _sync()
         t0 = int(top[0])
         ev = int(f(params, sds, nes, upd, top, dom_idx))
         t1 = int(top[0])
+        C.tt = t1
         _emit({"k": "B", "d": _d(), "dom": int(dom_idx), "top": t0, "top2": t1, "levels": sds[t0:t1 + 1].tolist(),
                "ens": [[bool(x) for x in row] for row in nes[t0:t1 + 1]], "events": ev,
                "upd": [[int(x[0]), int(x[1])] for x in upd[t0:t1]]})
@@ -250,13 +271,15 @@ def wrap_bt(f):
     def g(statistics, nes, upd, top, trig, triggers):
         if C.probing or C.solver is None:
             return f(statistics, nes, upd, top, trig, triggers)
+        _sync()
         t0 = int(top[0])
         below = None
         if t0 > 0:
             below = (_box(t0 - 1), _en(t0 - 1))
         ok = bool(f(statistics, nes, upd, top, trig, triggers))
         e = {"k": "R", "d": _d(), "ok": ok, "top2": int(top[0]), "box": _box(), "en": _en(),
-             "same": below is None or (below[0] == _box() and below[1] == _en())}
+             "same": below is None or (below[0] == _box() and below[1] == _en()), "synth": False}
+        C.tt = int(top[0])
         _emit(e)
         return ok
 
@@ -268,6 +291,7 @@ def wrap_reset(f):
     def g(*a):
         r = f(*a)
         if C.solver is not None:
+            C.tt = _top()
             _emit({"k": "Z", "d": 0, "box": _box(), "en": _en(), "top": _top()})
         return r
 
@@ -349,11 +373,13 @@ def drive(item):
     C.mode = mode
     C.bound = 4 * pass_bound(P)
     C.solver = s
+    C.tt = 0
     limit = item.get("limit")
     try:
         if mode == "solve":
             n = 0
             for sol in s.solve():
+                _sync()
                 _emit({"k": "Y", "d": 0, "sol": [int(x) for x in sol], "stats": _stats(), "top": _top()})
                 n += 1
                 if limit is not None and n >= limit:
@@ -422,6 +448,7 @@ def main():
     signal.signal(signal.SIGALRM, _alarm)
     install()
     C.want_probes = job.get("probes", True)
+    C.nested_probes = job.get("nested_probes", False)
     if job.get("calls"):
         C.calls = {}
     t0 = time.time()
